@@ -91,6 +91,16 @@ def gen_cvec(rng, n, dyadic=True):
     return c
 
 
+def gen_cvec_offset(rng, n):
+    """Nodes 2^20 * s + k-th partial sum of tiny dyadic cells (2^-9 .. 2^-11): exactly representable in float64,
+    not in float32 (31+ significant bits)."""
+    c = [rng.choice([-1.0, 1.0, 1.0]) * 2.0 ** 20 + rng.randint(0, 7) * 2.0 ** -10]
+    for _ in range(n - 1):
+        c.append(c[-1] + rng.choice([2.0 ** -10, 2.0 ** -9, 2.0 ** -11, 3 * 2.0 ** -11]))
+    assert all(float(np.float32(v)) != v for v in c[1:]) or n == 1
+    return c
+
+
 def gen_coord(rng, c, ties=True):
     """One evaluation coordinate for an axis with nodes c, plus the branch it aims at.
     ties=False (non-dyadic spacings): no midpoints, because the float quotient next to the
@@ -172,7 +182,9 @@ def gen_coord_near(rng, c, eps):
     return c[-1] + (c[-1] - c[-2]) * rng.choice([0.25, 0.375, 0.75]), k
 
 
-DTYPES = ['float64', 'float64', 'float64', 'float32', 'complex128', 'int64', 'str']
+DTYPES = ['float64', 'float64', 'float64', 'float32', 'complex128', 'complex64', 'int64', 'str']
+CPLX = ('complex128', 'complex64')
+LOWPREC = ('float32', 'complex64')
 
 LAYOUTS = ['C', 'F', 'transposed', 'strided', 'negstride']
 LAYOUT_SRC = '''
@@ -230,8 +242,8 @@ def run_interp(kind, schemes, cvs, dtype, vals_re, vals_im, conv, pts, mesh, use
     d = len(cvs)
     if dtype == 'str':
         f = np.array([chr(97 + int(v)) for v in vals_re]).reshape(shape)
-    elif dtype == 'complex128':
-        f = (np.array(vals_re) + 1j * np.array(vals_im)).reshape(shape)
+    elif dtype in CPLX:
+        f = (np.array(vals_re) + 1j * np.array(vals_im)).reshape(shape).astype(dtype)
     else:
         f = np.array(vals_re).astype(dtype).reshape(shape)
     f = relayout(f, layout)
@@ -287,7 +299,7 @@ def run_interp(kind, schemes, cvs, dtype, vals_re, vals_im, conv, pts, mesh, use
     flat = r.ravel()
     if dtype == 'str':
         return 'OVals %s []' % C.qs([ord(s) - 97 for s in flat.tolist()]), flat.tolist()
-    if dtype == 'complex128':
+    if dtype in CPLX:
         if not np.all(np.isfinite(flat)):
             return 'ONonFinite', 'nonfinite'
         return 'OVals %s %s' % (C.qs(flat.real.tolist()), C.qs(flat.imag.tolist())), flat.tolist()
@@ -298,11 +310,12 @@ def run_interp(kind, schemes, cvs, dtype, vals_re, vals_im, conv, pts, mesh, use
 
 def case_term(kind, schemes, cvs, dtype, vre, vim, conv, pts, mesh, out, outarg=None):
     kk = {'nearest': 'KNearest', 'linear': 'KLinear', 'per_axis': 'KPerAxis'}[kind]
-    dt = {'float64': 'DFloat', 'float32': 'DFloat', 'complex128': 'DFloat', 'int64': 'DInt', 'str': 'DStr'}[dtype]
+    dt = {'float64': 'DFloat', 'float32': 'DFloat', 'complex128': 'DFloat', 'complex64': 'DFloat', 'int64': 'DInt',
+          'str': 'DStr'}[dtype]
     inp = ('IMesh %s' % C.qss(mesh)) if conv in ('mesh', 'dense') else ('IPoints %s' % C.qss(pts))
     return ('{| k_kind := %s; k_ss := %s; k_cvs := %s; k_dt := %s; k_cplx := %s; k_vre := %s; k_vim := %s; '
             'k_inp := %s; k_outarg := %s; k_out := %s |}'
-            % (kk, C.lst([SCH[s] for s in schemes]), C.qss(cvs), dt, C.b(dtype == 'complex128'),
+            % (kk, C.lst([SCH[s] for s in schemes]), C.qss(cvs), dt, C.b(dtype in CPLX),
                C.qs(vre), C.qs(vim), inp,
                'None' if outarg is None else '(Some (%s%%nat, %s))' % (C.nats(outarg[0]), C.b(outarg[1])), out))
 
@@ -313,14 +326,21 @@ def interp_cases(rng, tier):
     for it in range(n_cases):
         d = rng.choice([1, 1, 2, 2, 3])
         dtype = rng.choice(DTYPES)
-        dyadic = dtype in ('float32', 'complex128') or rng.random() < 0.8
+        dyadic = dtype in ('float32', 'complex128', 'complex64') or rng.random() < 0.8
         maxn = {1: 6, 2: 5, 3: 4}[d]
         shape = [1 if rng.random() < 0.06 else rng.randint(2, maxn) for _ in range(d)]
         if d > 1 and rng.random() < 0.6:
             shape = rng.sample(range(2, maxn + 1), d)          # pairwise distinct axis lengths
         layout = 'C' if d == 1 else rng.choice(LAYOUTS)
         near = None
-        if dtype != 'float32' and rng.random() < 0.25:
+        offset = rng.random() < (0.5 if dtype in LOWPREC else 0.12)
+        if offset:
+            # large offset, tiny cells: coordinates exact in float64 but NOT in float32 (2^20 + k * 2^-10), so that a
+            # cast of the evaluation points / nodes to the dtype of float32 / complex64 VALUES would be visible;
+            # everything stays dyadic, i.e. exact also in the float32 result
+            dyadic = True
+            cvs = [gen_cvec_offset(rng, n) for n in shape]
+        elif dtype not in LOWPREC and rng.random() < 0.25:
             near = rng.choice(NEAR_KINDS)              # almost-uniform and/or rescaled coordinate vectors
             dyadic = False
             cvs = [gen_cvec_near(rng, n, *near) if n > 1 else [rng.randint(-8, 8) * 0.25 * near[1]] for n in shape]
@@ -340,7 +360,7 @@ def interp_cases(rng, tier):
             vre = [float(rng.randint(0, 25)) for _ in range(size)]
         else:
             vre = [float(rng.randint(-9, 9)) for _ in range(size)]
-        vim = [float(rng.randint(-9, 9)) for _ in range(size)] if dtype == 'complex128' else []
+        vim = [float(rng.randint(-9, 9)) for _ in range(size)] if dtype in CPLX else []
         conv = rng.choice(['single', 'array', 'array', 'mesh', 'mesh', 'dense'])
         pts, mesh, branches = [], [], []
         if conv in ('mesh', 'dense'):
@@ -370,7 +390,8 @@ def interp_cases(rng, tier):
         out, summ = run_interp(kind, schemes, cvs, dtype, vre, vim, conv, pts, mesh, use_out, layout, out_layout)
         term = case_term(kind, schemes, cvs, dtype, vre, vim, conv, pts, mesh, out, outarg)
         desc = {'kind': kind, 'schemes': schemes, 'cvs': cvs, 'dtype': dtype, 'values': vre, 'imag': vim,
-                'layout': layout, 'out_layout': out_layout, 'near_uniform_eps_scale': near, 'conv': conv, 'points': pts, 'mesh': mesh, 'out_arg': use_out, 'branches': branches,
+                'layout': layout, 'out_layout': out_layout, 'near_uniform_eps_scale': near, 'offset_grid': offset,
+                'conv': conv, 'points': pts, 'mesh': mesh, 'out_arg': use_out, 'branches': branches,
                 'impl': summ if isinstance(summ, str) else 'values'}
         key = (kind, tuple(schemes), str(cvs), dtype, tuple(vre), tuple(vim), conv, str(pts), str(mesh), use_out, layout, out_layout)
         cs.add(term, desc, key if len(set(vre)) > 1 else None)
@@ -1254,14 +1275,52 @@ def _probe(out, key, what, snippet):
 
 def _rand_values(rng, shape, dtype):
     size = int(np.prod(shape))
-    if dtype == 'complex128':
-        return 'np.array(%r).reshape(%r) + 1j * np.array(%r).reshape(%r)' % (
+    if dtype in CPLX:
+        return '(np.array(%r).reshape(%r) + 1j * np.array(%r).reshape(%r)).astype(%r)' % (
             [float(rng.randint(-9, 9)) for _ in range(size)], tuple(shape),
-            [float(rng.randint(-9, 9)) for _ in range(size)], tuple(shape))
+            [float(rng.randint(-9, 9)) for _ in range(size)], tuple(shape), dtype)
     if dtype == 'str':
         return 'np.array(%r).reshape(%r)' % ([chr(97 + rng.randint(0, 25)) for _ in range(size)], tuple(shape))
     return 'np.array(%r, dtype=%r).reshape(%r)' % ([float(rng.randint(-9, 9)) for _ in range(size)], dtype,
                                                    tuple(shape))
+
+
+def precision_interp_probes(rng, reps=1):
+    """Interpolation-side precision: float32 / complex64 VALUES on grids with a large offset and tiny cells
+    (2^20 + k * 2^-10: exact in float64, not in float32), evaluated between the nodes; oracle = the exact rational
+    interpolation formula on the float64 coordinates, cast last (everything dyadic, so equality is exact)."""
+    out = []
+    for _ in range(reps):
+        for kind in ('nearest', 'linear', 'per_axis'):
+            for dtype in LOWPREC:
+                d = rng.choice([1, 2, 3])
+                shape = _probe_shape(rng, d)
+                cvs = [gen_cvec_offset(rng, n) for n in shape]
+                schemes = [rng.choice(['nearest', 'linear']) for _ in range(d)]
+                if kind == 'per_axis' and 'linear' not in schemes:
+                    schemes[rng.randrange(d)] = 'linear'
+                eff = {'nearest': ['nearest'] * d, 'linear': ['linear'] * d, 'per_axis': schemes}[kind]
+                pts = []
+                for _k in range(8):
+                    p = []
+                    for c in cvs:
+                        j = rng.randrange(len(c) - 1)
+                        p.append(c[j] + (c[j + 1] - c[j]) * rng.choice([1, 3, 5, 6, 7, 9, 10, 11, 13, 15]) / 16.0)
+                    pts.append(p)
+                mesh = [sorted(set(p[k] for p in pts[:3])) for k in range(d)]
+                snip = REF + ('cvs = %r\nf = %s\nschemes = %r\nitp = make(%r, schemes, f, cvs)\npts = %r\nmesh = %r\n'
+                              % (cvs, _rand_values(rng, shape, dtype), eff, kind, pts, mesh))
+                snip += ('expected = [complex(np.asarray(ref_interp(schemes, cvs, f, p)).astype(f.dtype)) for p in pts]\n'
+                         'observed = call(itp, "array", pts, %d)\n'
+                         'mp = list(itertools.product(*mesh))\n'
+                         'm = [complex(v) for v in np.asarray(itp(sparse_meshgrid(*[np.array(x) for x in mesh]))).ravel()]\n'
+                         'ok = (observed == expected and call(itp, "single", pts, %d) == expected\n'
+                         '      and m == [complex(np.asarray(ref_interp(schemes, cvs, f, p)).astype(f.dtype)) for p in mp])\n'
+                         % (d, d))
+                _probe(out, 'precision-interp-%s-%s' % (kind if kind != 'per_axis' else 'peraxis', dtype),
+                       '%s %s with %s values on a grid with offset 2^20 and cells ~2^-10 (%d-d): values between the nodes '
+                       'equal the exact interpolation formula on the float64 coordinates' % (kind, eff, dtype, d), snip)
+    return out
 
 
 def _probe_shape(rng, d):
@@ -1318,11 +1377,14 @@ def probes(rng, tier):
     for _ in range(3 * reps):
         for d in (1, 2, 3):
             for kind, _m in kinds:
-                dtype = rng.choice(['float64', 'float64', 'float32', 'complex128'])
+                dtype = rng.choice(['float64', 'float64', 'float32', 'complex128', 'complex64', 'float32'])
                 shape = _probe_shape(rng, d)
                 layout = 'C' if d == 1 else rng.choice(LAYOUTS[1:] + ['C'])
-                near = rng.choice(NEAR_KINDS) if (dtype != 'float32' and rng.random() < 0.4) else None
-                if near:
+                near = rng.choice(NEAR_KINDS) if (dtype not in LOWPREC and rng.random() < 0.4) else None
+                if near is None and rng.random() < (0.6 if dtype in LOWPREC else 0.15):
+                    cvs = [gen_cvec_offset(rng, n) for n in shape]     # 2^20 + tiny dyadic cells
+                    coord = lambda c: gen_coord(rng, c)[0]
+                elif near:
                     cvs = [gen_cvec_near(rng, n, *near) for n in shape]
                     coord = lambda c: gen_coord_near(rng, c, near[0])[0]
                 else:
@@ -1361,6 +1423,9 @@ def probes(rng, tier):
                        'decay outside, identical (values and shape) for single points, point arrays, sparse and dense mesh grids, with and without out=%s'
                        % (kind, eff, dtype, d, layout,
                           '; almost-uniform / rescaled nodes (eps, scale) = %r' % (near,) if near else ''), snip)
+
+    # ---- 2b. precision of the evaluation points for low-precision values
+    out.extend(precision_interp_probes(rng, 1 if tier == 'quick' else 4))
 
     # ---- 3. linear interpolation is exact for affine functions inside the hull
     for _ in range(3 * reps):
@@ -1656,9 +1721,10 @@ def _interp_snippet(desc):
     d = len(desc['cvs'])
     kind = desc['kind']
     eff = {'nearest': ['nearest'] * d, 'linear': ['linear'] * d, 'per_axis': desc['schemes']}[kind]
-    if desc['dtype'] == 'complex128':
-        f = 'np.array(%r).reshape(%r) + 1j * np.array(%r).reshape(%r)' % (
-            desc['values'], tuple(len(c) for c in desc['cvs']), desc['imag'], tuple(len(c) for c in desc['cvs']))
+    if desc['dtype'] in CPLX:
+        f = '(np.array(%r).reshape(%r) + 1j * np.array(%r).reshape(%r)).astype(%r)' % (
+            desc['values'], tuple(len(c) for c in desc['cvs']), desc['imag'], tuple(len(c) for c in desc['cvs']),
+            desc['dtype'])
     elif desc['dtype'] == 'str':
         return None
     else:
@@ -1705,6 +1771,11 @@ def _deform_snippet(desc):
 def search(rng, broken):
     """A correspondence case failed: evaluate the PROPERTY (textbook reference, no model) on that very
     input and return a failing probe with a replay, if it fails."""
+    if any(k in ('translator', 'proof') for k, _w, _d in broken):
+        # the regenerated model is unusable: evaluate the property directly, precision battery first
+        for p in precision_interp_probes(rng, 2):
+            if not p.ok:
+                return p
     for kind, what, desc in broken:
         if kind != 'correspondence' or not isinstance(desc, dict):
             continue
